@@ -20,7 +20,7 @@ from __future__ import annotations
 
 import ast
 
-from ..repo import AnalysisError, own_nodes
+from ..repo import AnalysisError, dotted, own_nodes
 from .roles import dispatcher_roles, schedule_attr, machine_id_attr
 from .common import only_called_from, DISPATCHER, resolve_root
 
@@ -510,22 +510,39 @@ def _order_relation(ctx, sched, add):
         fors = [n for n in own_nodes(C.node) if isinstance(n, ast.For) and isinstance(n.iter, ast.Call) and ast.unparse(n.iter.func) == "enumerate"]
         inner = fors[-1] if fors else None
         ok_pair = False
-        if inner is not None and isinstance(inner.target, ast.Tuple):
+        if inner is not None and isinstance(inner.target, ast.Tuple) and len(inner.target.elts) == 2 and all(isinstance(e_, ast.Name) for e_ in inner.target.elts):
             iv, ev = inner.target.elts[0].id, inner.target.elts[1].id
             lst = ast.unparse(inner.iter.args[0])
             ok_pair = ast.unparse(new) == ev and prev_t == f"{lst}[{iv}-1]"
+        if not ok_pair:
+            # predecessor by a shifted walk: `for [i,] (prev, cur) in [enumerate(]zip(chain([None], L), L)[)]`
+            for lp in [n for n in own_nodes(C.node) if isinstance(n, ast.For)]:
+                it_, tg_ = lp.iter, lp.target
+                if isinstance(it_, ast.Call) and ast.unparse(it_.func) == "enumerate" and it_.args and isinstance(tg_, ast.Tuple) and len(tg_.elts) == 2:
+                    it_, tg_ = it_.args[0], tg_.elts[1]
+                if not (isinstance(it_, ast.Call) and ast.unparse(it_.func) == "zip" and len(it_.args) == 2 and isinstance(tg_, ast.Tuple) and len(tg_.elts) == 2
+                        and all(isinstance(e_, ast.Name) for e_ in tg_.elts)):
+                    continue
+                first = ctx.norm.xexpr(C, it_.args[0])
+                if (
+                    isinstance(first, ast.Call) and (dotted(first.func) or "").split(".")[-1] == "chain" and len(first.args) == 2
+                    and ast.unparse(first.args[0]).replace(" ", "") in ("[None]", "(None,)")
+                    and ast.unparse(first.args[1]) == ast.unparse(it_.args[1])
+                    and isinstance(prev, ast.Name) and prev.id == tg_.elts[0].id and ast.unparse(new) == tg_.elts[1].id
+                ):
+                    ok_pair = True
         if not ok_pair:
             # carried predecessor: a local reset before the loop over one
             # machine list and set to the loop element at the end of each step
             loops = [n for n in own_nodes(C.node) if isinstance(n, ast.For)]
             il = loops[-1] if loops else None
             if il is not None and isinstance(prev, ast.Name):
-                elem = il.target.elts[-1].id if isinstance(il.target, ast.Tuple) else (il.target.id if isinstance(il.target, ast.Name) else None)
+                elem = (il.target.elts[-1].id if isinstance(il.target.elts[-1], ast.Name) else None) if isinstance(il.target, ast.Tuple) else (il.target.id if isinstance(il.target, ast.Name) else None)
                 ds = ctx.flow.defs(C).of(prev.id)
                 vals = [ast.unparse(d[1]) for d in ds if d[0] == "value"]
                 last_stmt = il.body[-1]
                 carried = (
-                    sorted(vals) == sorted(["None", elem]) and isinstance(last_stmt, ast.Assign)
+                    elem is not None and sorted(vals) == sorted(["None", elem]) and isinstance(last_stmt, ast.Assign)
                     and ast.unparse(last_stmt.targets[0]) == prev.id and ast.unparse(last_stmt.value) == elem
                     and not any(isinstance(x, ast.Continue) for x in ast.walk(il))
                 )
